@@ -73,6 +73,15 @@ def _cases(tier, rng):
         yield {"dag": d, "rewrites": [rng.choice(("nest", "nest-all")), rng.choice(("update_renames", "update_renames", "scope")),
                                       rng.choice(("copy", "join", "or", "update_renames", "pickle"))],
                "seed": rng.randrange(10**6), "mutate": None}
+    # defaults that were updated on a (rewritten) pipeline travel with it: calls that leave defaulted root arguments out
+    # must use the updated values after every further rewrite (update-defaults is an in-place step between rewrites)
+    for _ in range(n // 10):
+        d = dag.gen_dag(rng, rng.randint(2, 4), allow_bound=False)
+        if not dag.shared_defaults(d):
+            continue
+        yield {"dag": d, "rewrites": [rng.choice(("nest", "nest-all", "copy", "simplify", "scope")), "update-defaults",
+                                      rng.choice(("copy", "pickle", "nest", "join", "scope-and-remove", "update_renames"))],
+               "seed": rng.randrange(10**6), "mutate": None, "omit_defaults": True}
     # larger pipelines for the rewrites that combine functions (several combinable groups need >= 5 functions)
     for _ in range(n // 2):
         d = dag.gen_dag(rng, rng.randint(4, 6), allow_multi=rng.random() < 0.3, allow_nullary=False)
@@ -104,6 +113,27 @@ def apply_rewrite(name, p, d, names, rng):
         d2 = _other(rng, f"_o{rng.randrange(10**6)}")
         p2 = dag.build(d2)
         return [p.join(p2) if name == "join" else (p | p2)], names
+    if name == "update-defaults":
+        # in place, on the pipeline as it is now: every root argument that has a default gets a new one.  The description
+        # `d` of what the pipeline computes is updated with it (every function that takes the argument gets the default).
+        cur_defaults = dict(p.defaults)
+        if not cur_defaults:
+            raise NotApplicable
+        inv = {v: k for k, v in names.items()}
+        upd = {}
+        for cur_name in sorted(cur_defaults):
+            orig = inv.get(cur_name, cur_name)
+            if orig in dag.ROOTS:
+                upd[cur_name] = f"UPD_{orig}"
+        if not upd:
+            raise NotApplicable
+        p.update_defaults(upd)
+        for cur_name, val in upd.items():
+            orig = inv.get(cur_name, cur_name)
+            for f in d["funcs"]:
+                if orig in f["params"] and orig not in f.get("bound", {}):
+                    f.setdefault("defaults", {})[orig] = val
+        return [p], names
     if name == "update_renames":
         q = p.copy()
         cur = set(q.all_output_names) | set(q.topological_generations.root_args)
@@ -186,7 +216,7 @@ class NotApplicable(Exception):
     pass
 
 
-def _eval_all(pipes, d, names, scoped_dict=False):
+def _eval_all(pipes, d, names, scoped_dict=False, omit_defaults=False):
     """Evaluate every original output that is retained by one of the pipelines; -> {orig output: value or Exception}."""
     got = {}
     for o in dag.all_outputs(d):
@@ -202,7 +232,7 @@ def _eval_all(pipes, d, names, scoped_dict=False):
                 except Exception:  # noqa: BLE001
                     roots = [names.get(r, r) for r in dag.needed_roots(d, o, set())]
                 kw = {rc: f"v_{inv.get(rc, rc)}" for rc in roots
-                      if not (rc in dflt and inv.get(rc, rc) not in dag.needed_roots(d, o, set()))}
+                      if not (rc in dflt and (omit_defaults or inv.get(rc, rc) not in dag.needed_roots(d, o, set())))}
                 if scoped_dict:
                     nested: dict = {}
                     for k, v in kw.items():
@@ -250,27 +280,29 @@ def _reference_all_roots(d):
     return out
 
 
-def _reference(d):
+def _reference(d, omit_defaults=False):
     out = {}
+    dflt = dag.shared_defaults(d) if omit_defaults else {}
     for o in dag.all_outputs(d):
         need = dag.needed_roots(d, o, set())
         try:
-            out[o] = dag.refeval(d, o, {r: f"v_{r}" for r in need})[0]
+            out[o] = dag.refeval(d, o, {r: f"v_{r}" for r in need if r not in dflt})[0]
         except dag.NotComputable:
             pass
     return out
 
 
 def _check(case):
-    d = case["dag"]
+    d = _copy.deepcopy(case["dag"])  # (update-defaults changes the description along with the pipeline)
+    omit = bool(case.get("omit_defaults"))
     rng = random.Random(case["seed"])
-    want = _reference(d)
+    want = _reference(d, omit)
     try:
         p = dag.build(d)
     except Exception as e:  # noqa: BLE001
         return [f"construction raised {type(e).__name__}"]
     progs.set_log(None)
-    base = _eval_all([p], d, {})
+    base = _eval_all([p], d, {}, omit_defaults=omit)
     bad = []
     for o, v in want.items():
         if base.get(o) != v:
@@ -304,6 +336,21 @@ def _check(case):
             return bad
     if not applied:
         return []
+    if omit:
+        if "update-defaults" not in applied:
+            return []
+        want = _reference(d, True)  # (with the defaults as updated on the way)
+        got = _eval_all(pipes, d, names, omit_defaults=True)
+        for o, v in want.items():
+            g = got.get(o)
+            if o in got and isinstance(g, Exception):
+                if "Inconsistent default values" in str(g):
+                    continue
+                bad.append(f"after {applied}: output {o} (defaulted arguments left out) raised {type(g).__name__}: {str(g)[:140]}")
+            elif o in got and g != v:
+                bad.append(f"after {applied}: output {o} with the defaulted arguments left out = {g!r}, the pipeline whose "
+                           f"defaults were updated computes {v!r}")
+        return bad[:6]
     got = _eval_all(pipes, d, names)
     retained = 0
     for o, v in want.items():
